@@ -16,11 +16,16 @@ import (
 	"sort"
 	"strings"
 	"testing"
+	"time"
 
 	sdkmath "cosmossdk.io/math"
 	sdk "github.com/cosmos/cosmos-sdk/types"
+	authtypes "github.com/cosmos/cosmos-sdk/x/auth/types"
+	vesting "github.com/cosmos/cosmos-sdk/x/auth/vesting/types"
+	banktypes "github.com/cosmos/cosmos-sdk/x/bank/types"
 
 	simapp "github.com/provenance-io/provenance/app"
+	"github.com/provenance-io/provenance/internal/pioconfig"
 	"github.com/provenance-io/provenance/x/exchange"
 	"github.com/provenance-io/provenance/x/hold"
 )
@@ -42,7 +47,11 @@ type c02World struct {
 	lastID  uint64
 	payN    int
 	pairs   [][2]string // (assets denom, price denom) used by this history
+	vesting map[string]bool // traders that are vesting accounts in this history
 }
+
+const c02BipsMarket = 3 // charges the exchange's commitment settlement fee (bips, NAV conversion)
+const c02Interm = "cnd" // its intermediary denom
 
 // ---------- observation ----------
 
@@ -52,6 +61,7 @@ type c02Obs struct {
 	pays    []*exchange.Payment
 	holds   []c02KV
 	bals    []c02KV
+	vest    []c02KV
 	lastID  uint64
 }
 
@@ -124,8 +134,28 @@ func (w *c02World) observe(ctx sdk.Context) *c02Obs {
 			b := w.app.BankKeeper.GetBalance(ctx, a, d)
 			ob.bals = append(ob.bals, c02KV{w.aid(a.String()), w.did(d), b.Amount})
 		}
+		// coins still locked by a vesting schedule (the bank adds them to the coins on hold)
+		if va, ok := w.app.AccountKeeper.GetAccount(ctx, a).(banktypes.VestingAccount); ok {
+			for _, c := range va.LockedCoins(ctx.BlockTime()) {
+				ob.vest = append(ob.vest, c02KV{w.aid(a.String()), w.did(c.Denom), c.Amount})
+			}
+		}
 	}
 	return ob
+}
+
+func (ob *c02Obs) get(kvs []c02KV, a, d int64) sdkmath.Int {
+	for _, kv := range kvs {
+		if kv.a == a && kv.d == d {
+			return kv.v
+		}
+	}
+	return sdkmath.ZeroInt()
+}
+
+// spendable = balance - hold - still vesting, as the bank computes it.
+func (ob *c02Obs) spendable(a, d int64) sdkmath.Int {
+	return ob.get(ob.bals, a, d).Sub(ob.get(ob.holds, a, d)).Sub(ob.get(ob.vest, a, d))
 }
 
 func (ob *c02Obs) bal(a, d int64) sdkmath.Int {
@@ -198,7 +228,7 @@ func (w *c02World) stateT(ob *c02Obs) string {
 		ps = append(ps, fmt.Sprintf("((%d, %d), mk_payment %s %s %d)", w.aid(p.Source), w.eid(p.ExternalId),
 			w.coinsT(p.SourceAmount), w.coinsT(p.TargetAmount), w.aid(p.Target)))
 	}
-	return fmt.Sprintf("(mk_state %s %d %s %s %s %s)", coqList(os), ob.lastID, coqList(cs), coqList(ps), w.kvT(ob.holds), w.kvT(ob.bals))
+	return fmt.Sprintf("(mk_state %s %d %s %s %s %s %s)", coqList(os), ob.lastID, coqList(cs), coqList(ps), w.kvT(ob.holds), w.kvT(ob.bals), w.kvT(ob.vest))
 }
 
 func (w *c02World) entriesT(es []exchange.AccountAmount) string {
@@ -225,14 +255,21 @@ type c02Result struct {
 	err  error
 }
 
-func (w *c02World) exec(msg sdk.Msg) c02Result {
-	cctx, write := w.ctx.CacheContext()
+func c02ValidateBasic(msg sdk.Msg) error {
+	if vb, ok := msg.(interface{ ValidateBasic() error }); ok {
+		return try(vb.ValidateBasic)
+	}
+	return nil
+}
+
+// execOn runs ValidateBasic and the real handler on a cache of ctx; the cache is written only when
+// asked for and the message succeeded.
+func (w *c02World) execOn(ctx sdk.Context, msg sdk.Msg, commit bool) c02Result {
+	cctx, write := ctx.CacheContext()
 	var resp any
 	err := try(func() error {
-		if vb, ok := msg.(interface{ ValidateBasic() error }); ok {
-			if e := vb.ValidateBasic(); e != nil {
-				return e
-			}
+		if e := c02ValidateBasic(msg); e != nil {
+			return e
 		}
 		h := w.app.MsgServiceRouter().Handler(msg)
 		if h == nil {
@@ -250,8 +287,31 @@ func (w *c02World) exec(msg sdk.Msg) c02Result {
 	if err != nil {
 		return c02Result{ok: false, err: err}
 	}
-	write()
+	if commit {
+		write()
+	}
 	return c02Result{ok: true, resp: resp}
+}
+
+func (w *c02World) exec(msg sdk.Msg) c02Result { return w.execOn(w.ctx, msg, true) }
+
+// richAccepts answers: would the implementation accept this message if `who` had unlimited spendable
+// funds?  (Same state, same message, thrown away afterwards.)  A refusal that remains is not about funds.
+func (w *c02World) richAccepts(msg sdk.Msg, who sdk.AccAddress) bool {
+	cctx, _ := w.ctx.CacheContext()
+	var cs sdk.Coins
+	for _, d := range c02Denoms {
+		cs = cs.Add(sdk.NewInt64Coin(d, 1_000_000_000_000_000))
+	}
+	if err := try(func() error {
+		if e := w.app.BankKeeper.MintCoins(cctx, "mint", cs); e != nil {
+			return e
+		}
+		return w.app.BankKeeper.SendCoinsFromModuleToAccount(cctx, "mint", who, cs)
+	}); err != nil {
+		return false
+	}
+	return w.execOn(cctx, msg, false).ok
 }
 
 // ---------- generators ----------
@@ -261,7 +321,11 @@ func (w *c02World) exec(msg sdk.Msg) c02Result {
 type c02Op struct {
 	kind string
 	msg  sdk.Msg
-	term func(ok bool, before, after *c02Obs) string
+	// adm computes the model's [adm] flag ("every check the model does not make itself passed") from
+	// facts known by construction or asked of the implementation in a funds-rich copy of the state;
+	// nil means: the implementation's own answer (one-sided comparison).
+	adm  func(ok bool) bool
+	term func(adm, ok bool, before, after *c02Obs) string
 }
 
 func (w *c02World) pick(n int) int { return w.r.Intn(n) }
@@ -412,9 +476,137 @@ func (w *c02World) genCreateAsk(before *c02Obs) *c02Op {
 			msg.OrderCreationFee = nil // missing required fee
 		}
 	}
-	return &c02Op{kind: "create_ask", msg: msg, term: func(ok bool, _, _ *c02Obs) string {
-		o := exchange.NewOrder(0).WithAsk(&ask)
-		return fmt.Sprintf("OCreate %s %s %s", coqBool(ok), w.orderT(o), w.optCoinT(msg.OrderCreationFee))
+	return &c02Op{kind: "create_ask", msg: msg,
+		adm: func(ok bool) bool { return ok || w.richAccepts(msg, seller) },
+		term: func(adm, _ bool, _, _ *c02Obs) string {
+			o := exchange.NewOrder(0).WithAsk(&ask)
+			return fmt.Sprintf("OCreate %s %s %s", coqBool(adm), w.orderT(o), w.optCoinT(msg.OrderCreationFee))
+		}}
+}
+
+// genCreateAskFeeInAssets: an ask whose seller settlement flat fee is in the ASSETS denom (legal).  Its
+// hold amount is assets + fee in ONE denom and must fit into the spendable balance as a whole; the amounts
+// are placed around that boundary (spendable = balance - hold - still vesting).
+func (w *c02World) genCreateAskFeeInAssets(before *c02Obs) *c02Op {
+	m := w.market()
+	mkt := w.app.ExchangeKeeper.GetMarket(w.ctx, m)
+	if mkt == nil {
+		return nil
+	}
+	ad, pd := w.pair()
+	minFee := int64(1)
+	if len(mkt.FeeSellerSettlementFlat) > 0 {
+		found := false
+		for _, c := range mkt.FeeSellerSettlementFlat {
+			if c.Denom == ad {
+				minFee, found = c.Amount.Int64(), true
+			}
+		}
+		if !found {
+			return nil // this market takes its flat fee in other denoms only
+		}
+	}
+	// prefer a seller with little to spend in the assets denom
+	seller := w.trader()
+	for i := 0; i < 4; i++ {
+		o := w.trader()
+		if before.spendable(w.aid(o.String()), w.did(ad)).LT(before.spendable(w.aid(seller.String()), w.did(ad))) {
+			seller = o
+		}
+	}
+	msg := &exchange.MsgCreateAskRequest{}
+	var cfeeInAssets int64
+	if opts := mkt.FeeCreateAskFlat; len(opts) > 0 {
+		c := opts[w.pick(len(opts))]
+		for _, o := range opts { // a creation fee in another denom keeps the boundary exact
+			if o.Denom != ad && w.pick(3) != 0 {
+				c = o
+			}
+		}
+		msg.OrderCreationFee = &c
+		if c.Denom == ad {
+			cfeeInAssets = c.Amount.Int64()
+		}
+	}
+	sp := before.spendable(w.aid(seller.String()), w.did(ad))
+	if !sp.IsInt64() || sp.Int64() < minFee+1+cfeeInAssets {
+		sp = sdkmath.NewInt(minFee + 1 + cfeeInAssets + int64(w.pick(50)))
+	}
+	total := sp.Int64() - cfeeInAssets + int64(w.pick(7)-3) // -3 .. +3 around what can be held
+	if w.pick(8) == 0 {
+		total = 1 + w.r.Int63n(sp.Int64()) // anywhere below
+	}
+	fee := minFee + int64(w.pick(4))
+	if w.pick(3) == 0 && total > 2*minFee {
+		fee = total / 2 // each part alone fits, the sum may not
+	}
+	if total-fee < 1 {
+		total = fee + 1
+	}
+	assets := sdk.NewInt64Coin(ad, total-fee)
+	flat := sdk.NewInt64Coin(ad, fee)
+	ask := exchange.AskOrder{MarketId: m, Seller: seller.String(), Assets: assets, Price: sdk.NewInt64Coin(pd, 100*(1+int64(w.pick(50)))),
+		SellerSettlementFlatFee: &flat, AllowPartial: false}
+	msg.AskOrder = ask
+	return &c02Op{kind: "create_ask_fee_in_assets", msg: msg,
+		adm: func(ok bool) bool { return ok || w.richAccepts(msg, seller) },
+		term: func(adm, _ bool, _, _ *c02Obs) string {
+			o := exchange.NewOrder(0).WithAsk(&ask)
+			return fmt.Sprintf("OCreate %s %s %s", coqBool(adm), w.orderT(o), w.optCoinT(msg.OrderCreationFee))
+		}}
+}
+
+// genSetExtID: MsgMarketSetOrderExternalID re-stores an order; its hold must not move.
+func (w *c02World) genSetExtID(before *c02Obs) *c02Op {
+	if len(before.orders) == 0 {
+		return nil
+	}
+	o := before.orders[w.pick(len(before.orders))]
+	admin := w.admin.String()
+	if w.pick(8) == 0 {
+		admin = w.trader().String()
+	}
+	id, m := o.OrderId, o.GetMarketID()
+	if w.pick(10) == 0 {
+		id = w.lastID + 5 // no such order
+	}
+	w.payN++
+	msg := &exchange.MsgMarketSetOrderExternalIDRequest{Admin: admin, MarketId: m, OrderId: id, ExternalId: fmt.Sprintf("ext-%d-%d", id, w.payN)}
+	return &c02Op{kind: "set_external_id", msg: msg, term: func(_, ok bool, _, _ *c02Obs) string {
+		return fmt.Sprintf("OSetExtId %s %d", coqBool(ok), id)
+	}}
+}
+
+// genWithdraw: MsgMarketWithdraw moves collected fees from the market account to an account.
+func (w *c02World) genWithdraw(before *c02Obs) *c02Op {
+	m := w.market()
+	bal := w.app.BankKeeper.GetAllBalances(w.ctx, exchange.GetMarketAddress(m))
+	var amount sdk.Coins
+	for _, c := range bal {
+		if w.inHistory(c.Denom) || w.pick(3) == 0 {
+			amount = amount.Add(sdk.NewCoin(c.Denom, sdkmath.NewInt(1+w.r.Int63n(c.Amount.Int64()))))
+		}
+	}
+	if amount.IsZero() {
+		if w.pick(4) != 0 {
+			return nil
+		}
+		amount = sdk.NewCoins(sdk.NewInt64Coin(w.denoms[0], 5)) // the market account has nothing
+	}
+	if w.pick(10) == 0 {
+		amount = amount.Add(sdk.NewInt64Coin(w.denoms[0], 1_000_000_000))
+	}
+	admin := w.admin.String()
+	if w.pick(8) == 0 {
+		admin = w.trader().String()
+	}
+	to := w.trader()
+	if w.pick(4) == 0 {
+		to = w.admin
+	}
+	msg := &exchange.MsgMarketWithdrawRequest{Admin: admin, MarketId: m, ToAddress: to.String(), Amount: amount}
+	return &c02Op{kind: "market_withdraw", msg: msg, term: func(_, ok bool, _, _ *c02Obs) string {
+		return fmt.Sprintf("OWithdraw %s %d %s", coqBool(ok), w.aid(to.String()), w.coinsT(amount))
 	}}
 }
 
@@ -475,10 +667,12 @@ func (w *c02World) genCreateBid(before *c02Obs) *c02Op {
 			msg.OrderCreationFee = nil
 		}
 	}
-	return &c02Op{kind: "create_bid", msg: msg, term: func(ok bool, _, _ *c02Obs) string {
-		o := exchange.NewOrder(0).WithBid(&bid)
-		return fmt.Sprintf("OCreate %s %s %s", coqBool(ok), w.orderT(o), w.optCoinT(msg.OrderCreationFee))
-	}}
+	return &c02Op{kind: "create_bid", msg: msg,
+		adm: func(ok bool) bool { return ok || w.richAccepts(msg, buyer) },
+		term: func(adm, _ bool, _, _ *c02Obs) string {
+			o := exchange.NewOrder(0).WithBid(&bid)
+			return fmt.Sprintf("OCreate %s %s %s", coqBool(adm), w.orderT(o), w.optCoinT(msg.OrderCreationFee))
+		}}
 }
 
 func (w *c02World) genCancel(before *c02Obs) *c02Op {
@@ -499,20 +693,30 @@ func (w *c02World) genCancel(before *c02Obs) *c02Op {
 		id = w.lastID + uint64(1+w.pick(3)) // does not exist
 	}
 	msg := &exchange.MsgCancelOrderRequest{Signer: signer, OrderId: id}
-	return &c02Op{kind: "cancel", msg: msg, term: func(ok bool, _, _ *c02Obs) string {
-		return fmt.Sprintf("OCancel %s %d", coqBool(ok), id)
-	}}
+	// the model decides: the order exists and the signer is its owner or holds the cancel permission
+	// (only the admin was granted permissions, in every market, and grants never change in a history)
+	priv := signer == w.admin.String()
+	return &c02Op{kind: "cancel", msg: msg,
+		adm: func(bool) bool { return c02ValidateBasic(msg) == nil },
+		term: func(adm, _ bool, _, _ *c02Obs) string {
+			return fmt.Sprintf("OCancel %s %d %s %d", coqBool(adm), w.aid(signer), coqBool(priv), id)
+		}}
 }
 
 // settleTerm derives the observed fills: listed orders that vanished were filled in full, the one
 // that is still there with fewer assets was filled partially (by the difference).
 func (w *c02World) settleTerm(ok bool, ids []uint64, before, after *c02Obs) string {
 	if !ok {
-		return fmt.Sprintf("OSettle false %s None []", zList(ids))
+		return fmt.Sprintf("OSettle false %s [] None []", zList(ids))
 	}
 	var fulls []uint64
 	part := "None"
+	seen := map[uint64]bool{}
 	for _, id := range ids {
+		if seen[id] {
+			continue // an item is consumed once, however often the message names it
+		}
+		seen[id] = true
 		ob, oa := before.order(id), after.order(id)
 		switch {
 		case ob == nil:
@@ -531,7 +735,7 @@ func (w *c02World) settleTerm(ok bool, ids []uint64, before, after *c02Obs) stri
 			xf = append(xf, fmt.Sprintf("((%d, %d), %s)", kv.a, kv.d, zInt(d)))
 		}
 	}
-	return fmt.Sprintf("OSettle true %s %s %s", zList(fulls), part, coqList(xf))
+	return fmt.Sprintf("OSettle true %s %s %s %s", zList(ids), zList(fulls), part, coqList(xf))
 }
 
 type c02Group struct {
@@ -620,9 +824,12 @@ func (w *c02World) genMarketSettle(before *c02Obs) *c02Op {
 		askIDs = []uint64{w.lastID + 1}
 		bidIDs = []uint64{w.lastID + 2}
 	}
+	if len(bidIDs) > 0 && w.pick(10) == 0 {
+		bidIDs = append(bidIDs, bidIDs[0]) // the same order twice: ValidateBasic must refuse
+	}
 	msg := &exchange.MsgMarketSettleRequest{Admin: admin, MarketId: m, AskOrderIds: askIDs, BidOrderIds: bidIDs, ExpectPartial: expectPartial}
 	ids := append(append([]uint64{}, askIDs...), bidIDs...)
-	return &c02Op{kind: "market_settle", msg: msg, term: func(ok bool, b, a *c02Obs) string { return w.settleTerm(ok, ids, b, a) }}
+	return &c02Op{kind: "market_settle", msg: msg, term: func(_, ok bool, b, a *c02Obs) string { return w.settleTerm(ok, ids, b, a) }}
 }
 
 func (w *c02World) genFillBids(before *c02Obs) *c02Op {
@@ -637,6 +844,27 @@ func (w *c02World) genFillBids(before *c02Obs) *c02Op {
 	}
 	g := cands[w.pick(len(cands))]
 	bids := w.sample(g.bids, 1+w.pick(2))
+	dup := w.pick(6) == 0
+	if dup {
+		// the same bid twice ([7,7]): ValidateBasic must refuse it.  Prefer a bid whose owner has at least
+		// twice its amount on hold (other open items), so that a double release would not be refused by the
+		// hold keeper if the duplicate were let through.
+		best := g.bids[w.pick(len(g.bids))]
+		for _, b := range w.sample(g.bids, len(g.bids)) {
+			need := b.GetHoldAmount()
+			okAll := true
+			for _, c := range need {
+				if before.get(before.holds, w.aid(b.GetOwner()), w.did(c.Denom)).LT(c.Amount.MulRaw(2)) {
+					okAll = false
+				}
+			}
+			if okAll {
+				best = b
+				break
+			}
+		}
+		bids = []*exchange.Order{best, best}
+	}
 	seller := w.trader()
 	for i := 0; i < 6; i++ {
 		clash := false
@@ -665,7 +893,7 @@ func (w *c02World) genFillBids(before *c02Obs) *c02Op {
 		msg.SellerSettlementFlatFee = w.option(mkt.FeeSellerSettlementFlat)
 		msg.AskOrderCreationFee = w.option(mkt.FeeCreateAskFlat)
 	}
-	return &c02Op{kind: "fill_bids", msg: msg, term: func(ok bool, b, a *c02Obs) string { return w.settleTerm(ok, ids, b, a) }}
+	return &c02Op{kind: "fill_bids", msg: msg, term: func(_, ok bool, b, a *c02Obs) string { return w.settleTerm(ok, ids, b, a) }}
 }
 
 func (w *c02World) genFillAsks(before *c02Obs) *c02Op {
@@ -680,6 +908,23 @@ func (w *c02World) genFillAsks(before *c02Obs) *c02Op {
 	}
 	g := cands[w.pick(len(cands))]
 	asks := w.sample(g.asks, 1+w.pick(2))
+	if w.pick(6) == 0 {
+		best := g.asks[w.pick(len(g.asks))]
+		for _, a := range w.sample(g.asks, len(g.asks)) {
+			need := a.GetHoldAmount()
+			okAll := true
+			for _, c := range need {
+				if before.get(before.holds, w.aid(a.GetOwner()), w.did(c.Denom)).LT(c.Amount.MulRaw(2)) {
+					okAll = false
+				}
+			}
+			if okAll {
+				best = a
+				break
+			}
+		}
+		asks = []*exchange.Order{best, best} // the same ask twice: ValidateBasic must refuse
+	}
 	buyer := w.trader()
 	for i := 0; i < 6; i++ {
 		clash := false
@@ -708,7 +953,7 @@ func (w *c02World) genFillAsks(before *c02Obs) *c02Op {
 		msg.BuyerSettlementFees = w.buyerFees(mkt, total, 1, false)
 		msg.BidOrderCreationFee = w.option(mkt.FeeCreateBidFlat)
 	}
-	return &c02Op{kind: "fill_asks", msg: msg, term: func(ok bool, b, a *c02Obs) string { return w.settleTerm(ok, ids, b, a) }}
+	return &c02Op{kind: "fill_asks", msg: msg, term: func(_, ok bool, b, a *c02Obs) string { return w.settleTerm(ok, ids, b, a) }}
 }
 
 func (w *c02World) someCoins(max int64) sdk.Coins {
@@ -735,9 +980,11 @@ func (w *c02World) genCommit(before *c02Obs) *c02Op {
 			msg.CreationFee = nil
 		}
 	}
-	return &c02Op{kind: "commit", msg: msg, term: func(ok bool, _, _ *c02Obs) string {
-		return fmt.Sprintf("OCommit %s %d %d %s %s", coqBool(ok), m, w.aid(acct.String()), w.coinsT(amount), w.optCoinT(msg.CreationFee))
-	}}
+	return &c02Op{kind: "commit", msg: msg,
+		adm: func(ok bool) bool { return ok || w.richAccepts(msg, acct) },
+		term: func(adm, _ bool, _, _ *c02Obs) string {
+			return fmt.Sprintf("OCommit %s %d %d %s %s", coqBool(adm), m, w.aid(acct.String()), w.coinsT(amount), w.optCoinT(msg.CreationFee))
+		}}
 }
 
 func (w *c02World) partOf(cs sdk.Coins) sdk.Coins {
@@ -781,6 +1028,15 @@ func (w *c02World) genRelease(before *c02Obs) *c02Op {
 		if n > len(cs) {
 			n = len(cs)
 		}
+		if w.pick(6) == 0 {
+			// the same account twice: a part, then "everything" (= what is left by then)
+			c := cs[perm[0]]
+			entries = append(entries, exchange.AccountAmount{Account: c.Account, Amount: w.partOf(c.Amount)}, exchange.AccountAmount{Account: c.Account})
+			n = 0
+			if w.pick(2) == 0 {
+				entries[0], entries[1] = entries[1], entries[0] // everything first: the second entry finds nothing
+			}
+		}
 		for _, i := range perm[:n] {
 			c := cs[i]
 			switch w.pick(5) {
@@ -799,9 +1055,12 @@ func (w *c02World) genRelease(before *c02Obs) *c02Op {
 		entries = []exchange.AccountAmount{{Account: w.trader().String()}}
 	}
 	msg := &exchange.MsgMarketReleaseCommitmentsRequest{Admin: admin, MarketId: m, ToRelease: entries}
-	return &c02Op{kind: "release_commitments", msg: msg, term: func(ok bool, _, _ *c02Obs) string {
-		return fmt.Sprintf("ORelease %s %d %s", coqBool(ok), m, w.entriesT(entries))
-	}}
+	// the model decides: every entry names an account with a commitment and not more than is committed
+	return &c02Op{kind: "release_commitments", msg: msg,
+		adm: func(bool) bool { return admin == w.admin.String() && c02ValidateBasic(msg) == nil },
+		term: func(adm, _ bool, _, _ *c02Obs) string {
+			return fmt.Sprintf("ORelease %s %d %s", coqBool(adm), m, w.entriesT(entries))
+		}}
 }
 
 func (w *c02World) genCommitSettle(before *c02Obs) *c02Op {
@@ -845,9 +1104,32 @@ func (w *c02World) genCommitSettle(before *c02Obs) *c02Op {
 		outputs[0].Amount = outputs[0].Amount.Add(sdk.NewInt64Coin(outputs[0].Amount[0].Denom, 1)) // totals differ
 	}
 	msg := &exchange.MsgMarketCommitmentSettleRequest{Admin: admin, MarketId: m, Inputs: inputs, Outputs: outputs, Fees: fees}
-	return &c02Op{kind: "commitment_settle", msg: msg, term: func(ok bool, _, _ *c02Obs) string {
-		return fmt.Sprintf("OCommitSettle %s %d %s %s %s", coqBool(ok), m, w.entriesT(inputs), w.entriesT(outputs), w.entriesT(fees))
-	}}
+	if m == c02BipsMarket {
+		// the exchange charges bips of the inputs, valued in the fee denom through the intermediary denom:
+		// a NAV is needed for every other input denom, and one from the intermediary to the fee denom
+		feeDenom := pioconfig.GetProvenanceConfig().FeeDenom
+		for _, c := range exchange.SumAccountAmounts(inputs) {
+			if c.Denom != c02Interm && c.Denom != feeDenom && w.pick(8) != 0 {
+				msg.Navs = append(msg.Navs, exchange.NetAssetPrice{Assets: sdk.NewInt64Coin(c.Denom, int64(1+w.pick(7))), Price: sdk.NewInt64Coin(c02Interm, int64(1+w.pick(9)))})
+			}
+		}
+		if c02Interm != feeDenom && w.pick(8) != 0 {
+			msg.Navs = append(msg.Navs, exchange.NetAssetPrice{Assets: sdk.NewInt64Coin(c02Interm, int64(1+w.pick(5))), Price: sdk.NewInt64Coin(feeDenom, int64(1+w.pick(40)))})
+		}
+	}
+	// outside the model: the permission, ValidateBasic, and the exchange's own fee on the settlement
+	// (bips of the inputs converted through the NAVs), which fails when a conversion NAV is missing
+	return &c02Op{kind: "commitment_settle", msg: msg,
+		adm: func(bool) bool {
+			if admin != w.admin.String() || c02ValidateBasic(msg) != nil {
+				return false
+			}
+			cctx, _ := w.ctx.CacheContext()
+			return try(func() error { _, e := w.app.ExchangeKeeper.CalculateCommitmentSettlementFee(cctx, msg); return e }) == nil
+		},
+		term: func(adm, _ bool, _, _ *c02Obs) string {
+			return fmt.Sprintf("OCommitSettle %s %d %s %s %s", coqBool(adm), m, w.entriesT(inputs), w.entriesT(outputs), w.entriesT(fees))
+		}}
 }
 
 func (w *c02World) genPayCreate(before *c02Obs) *c02Op {
@@ -877,9 +1159,11 @@ func (w *c02World) genPayCreate(before *c02Obs) *c02Op {
 	}
 	pay := exchange.Payment{Source: src.String(), SourceAmount: samt, Target: target, TargetAmount: tamt, ExternalId: ext}
 	msg := &exchange.MsgCreatePaymentRequest{Payment: pay}
-	return &c02Op{kind: "payment_create", msg: msg, term: func(ok bool, _, _ *c02Obs) string {
-		return fmt.Sprintf("OPayCreate %s %d %d %s %s %d", coqBool(ok), w.aid(pay.Source), w.eid(ext), w.coinsT(samt), w.coinsT(tamt), w.aid(target))
-	}}
+	return &c02Op{kind: "payment_create", msg: msg,
+		adm: func(bool) bool { return c02ValidateBasic(msg) == nil },
+		term: func(adm, _ bool, _, _ *c02Obs) string {
+			return fmt.Sprintf("OPayCreate %s %d %d %s %s %d", coqBool(adm), w.aid(pay.Source), w.eid(ext), w.coinsT(samt), w.coinsT(tamt), w.aid(target))
+		}}
 }
 
 func (w *c02World) genPayAccept(before *c02Obs) *c02Op {
@@ -894,9 +1178,11 @@ func (w *c02World) genPayAccept(before *c02Obs) *c02Op {
 		p.Target = w.otherTrader(p.Source).String()
 	}
 	msg := &exchange.MsgAcceptPaymentRequest{Payment: p}
-	return &c02Op{kind: "payment_accept", msg: msg, term: func(ok bool, _, _ *c02Obs) string {
-		return fmt.Sprintf("OPayAccept %s %d %d %s %s %d", coqBool(ok), w.aid(p.Source), w.eid(p.ExternalId), w.coinsT(p.SourceAmount), w.coinsT(p.TargetAmount), w.aid(p.Target))
-	}}
+	return &c02Op{kind: "payment_accept", msg: msg,
+		adm: func(bool) bool { return c02ValidateBasic(msg) == nil },
+		term: func(adm, _ bool, _, _ *c02Obs) string {
+			return fmt.Sprintf("OPayAccept %s %d %d %s %s %d", coqBool(adm), w.aid(p.Source), w.eid(p.ExternalId), w.coinsT(p.SourceAmount), w.coinsT(p.TargetAmount), w.aid(p.Target))
+		}}
 }
 
 func (w *c02World) genPayReject(before *c02Obs) *c02Op {
@@ -909,9 +1195,11 @@ func (w *c02World) genPayReject(before *c02Obs) *c02Op {
 		target = w.trader().String()
 	}
 	msg := &exchange.MsgRejectPaymentRequest{Target: target, Source: p.Source, ExternalId: p.ExternalId}
-	return &c02Op{kind: "payment_reject", msg: msg, term: func(ok bool, _, _ *c02Obs) string {
-		return fmt.Sprintf("OPayReject %s %d %d %d", coqBool(ok), w.aid(target), w.aid(p.Source), w.eid(p.ExternalId))
-	}}
+	return &c02Op{kind: "payment_reject", msg: msg,
+		adm: func(bool) bool { return c02ValidateBasic(msg) == nil },
+		term: func(adm, _ bool, _, _ *c02Obs) string {
+			return fmt.Sprintf("OPayReject %s %d %d %d", coqBool(adm), w.aid(target), w.aid(p.Source), w.eid(p.ExternalId))
+		}}
 }
 
 func (w *c02World) genPayRejectAll(before *c02Obs) *c02Op {
@@ -942,13 +1230,15 @@ func (w *c02World) genPayRejectAll(before *c02Obs) *c02Op {
 		sources = append(sources, p.Source) // duplicates are ignored
 	}
 	msg := &exchange.MsgRejectPaymentsRequest{Target: target, Sources: sources}
-	return &c02Op{kind: "payments_reject", msg: msg, term: func(ok bool, _, _ *c02Obs) string {
-		var ids []string
-		for _, s := range sources {
-			ids = append(ids, fmt.Sprintf("%d", w.aid(s)))
-		}
-		return fmt.Sprintf("OPayRejectAll %s %d %s", coqBool(ok), w.aid(target), coqList(ids))
-	}}
+	return &c02Op{kind: "payments_reject", msg: msg,
+		adm: func(bool) bool { return c02ValidateBasic(msg) == nil },
+		term: func(adm, _ bool, _, _ *c02Obs) string {
+			var ids []string
+			for _, s := range sources {
+				ids = append(ids, fmt.Sprintf("%d", w.aid(s)))
+			}
+			return fmt.Sprintf("OPayRejectAll %s %d %s", coqBool(adm), w.aid(target), coqList(ids))
+		}}
 }
 
 func (w *c02World) genPayCancel(before *c02Obs) *c02Op {
@@ -969,13 +1259,15 @@ func (w *c02World) genPayCancel(before *c02Obs) *c02Op {
 		exts = append(exts, p.ExternalId)
 	}
 	msg := &exchange.MsgCancelPaymentsRequest{Source: p.Source, ExternalIds: exts}
-	return &c02Op{kind: "payments_cancel", msg: msg, term: func(ok bool, _, _ *c02Obs) string {
-		var ids []string
-		for _, e := range exts {
-			ids = append(ids, fmt.Sprintf("%d", w.eid(e)))
-		}
-		return fmt.Sprintf("OPayCancel %s %d %s", coqBool(ok), w.aid(p.Source), coqList(ids))
-	}}
+	return &c02Op{kind: "payments_cancel", msg: msg,
+		adm: func(bool) bool { return c02ValidateBasic(msg) == nil },
+		term: func(adm, _ bool, _, _ *c02Obs) string {
+			var ids []string
+			for _, e := range exts {
+				ids = append(ids, fmt.Sprintf("%d", w.eid(e)))
+			}
+			return fmt.Sprintf("OPayCancel %s %d %s", coqBool(adm), w.aid(p.Source), coqList(ids))
+		}}
 }
 
 func (w *c02World) genPayRetarget(before *c02Obs) *c02Op {
@@ -993,9 +1285,11 @@ func (w *c02World) genPayRetarget(before *c02Obs) *c02Op {
 		nt = w.otherTrader(p.Source).String()
 	}
 	msg := &exchange.MsgChangePaymentTargetRequest{Source: p.Source, ExternalId: p.ExternalId, NewTarget: nt}
-	return &c02Op{kind: "payment_retarget", msg: msg, term: func(ok bool, _, _ *c02Obs) string {
-		return fmt.Sprintf("OPayRetarget %s %d %d %d", coqBool(ok), w.aid(p.Source), w.eid(p.ExternalId), w.aid(nt))
-	}}
+	return &c02Op{kind: "payment_retarget", msg: msg,
+		adm: func(bool) bool { return c02ValidateBasic(msg) == nil },
+		term: func(adm, _ bool, _, _ *c02Obs) string {
+			return fmt.Sprintf("OPayRetarget %s %d %d %d", coqBool(adm), w.aid(p.Source), w.eid(p.ExternalId), w.aid(nt))
+		}}
 }
 
 func (w *c02World) genManageFees(before *c02Obs) *c02Op {
@@ -1046,7 +1340,7 @@ func (w *c02World) genManageFees(before *c02Obs) *c02Op {
 			msg.AddFeeCreateCommitmentFlat = []sdk.Coin{sdk.NewInt64Coin(d, amt)}
 		}
 	}
-	return &c02Op{kind: "manage_fees", msg: msg, term: func(ok bool, _, _ *c02Obs) string {
+	return &c02Op{kind: "manage_fees", msg: msg, term: func(_, ok bool, _, _ *c02Obs) string {
 		return fmt.Sprintf("OManageFees %s", coqBool(ok))
 	}}
 }
@@ -1066,7 +1360,7 @@ func (w *c02World) genReopen(before *c02Obs) *c02Op {
 	default: // already on: rejected
 		msg = &exchange.MsgMarketUpdateAcceptingOrdersRequest{Admin: w.admin.String(), MarketId: m, AcceptingOrders: true}
 	}
-	return &c02Op{kind: "market_flags", msg: msg, term: func(ok bool, _, _ *c02Obs) string {
+	return &c02Op{kind: "market_flags", msg: msg, term: func(_, ok bool, _, _ *c02Obs) string {
 		return fmt.Sprintf("OManageFees %s", coqBool(ok))
 	}}
 }
@@ -1078,7 +1372,7 @@ func (w *c02World) genCloseMarket(before *c02Obs) *c02Op {
 		authority = w.admin.String()
 	}
 	msg := &exchange.MsgGovCloseMarketRequest{Authority: authority, MarketId: m}
-	return &c02Op{kind: "close_market", msg: msg, term: func(ok bool, _, _ *c02Obs) string {
+	return &c02Op{kind: "close_market", msg: msg, term: func(_, ok bool, _, _ *c02Obs) string {
 		return fmt.Sprintf("OCloseMarket %s %d", coqBool(ok), m)
 	}}
 }
@@ -1094,6 +1388,7 @@ func (w *c02World) nextOp(before *c02Obs, closed bool) *c02Op {
 		{5, w.genFillBids}, {5, w.genFillAsks}, {8, w.genCommit}, {5, w.genRelease}, {5, w.genCommitSettle},
 		{7, w.genPayCreate}, {4, w.genPayAccept}, {3, w.genPayReject}, {2, w.genPayRejectAll},
 		{3, w.genPayCancel}, {2, w.genPayRetarget}, {2, w.genManageFees}, {1, w.genCloseMarket}, {1, w.genReopen},
+		{6, w.genCreateAskFeeInAssets}, {2, w.genSetExtID}, {2, w.genWithdraw},
 	}
 	if closed {
 		gens = append(gens, c02Gen{12, w.genReopen})
@@ -1153,6 +1448,12 @@ func c02Setup(t *testing.T, app *simapp.App, ctx sdk.Context, admin sdk.AccAddre
 			MarketId: 2, MarketDetails: exchange.MarketDetails{Name: "free"},
 			AcceptingOrders: true, AllowUserSettlement: true, AccessGrants: grants, AcceptingCommitments: true,
 		},
+		{
+			MarketId: c02BipsMarket, MarketDetails: exchange.MarketDetails{Name: "bips"},
+			AcceptingOrders: true, AllowUserSettlement: true, AccessGrants: grants, AcceptingCommitments: true,
+			FeeCreateCommitmentFlat:  c02Coins("1cnb"),
+			CommitmentSettlementBips: 25, IntermediaryDenom: c02Interm,
+		},
 	}
 	for _, m := range mk {
 		msg := &exchange.MsgGovCreateMarketRequest{Authority: app.ExchangeKeeper.GetAuthority(), Market: m}
@@ -1169,7 +1470,7 @@ func (w *c02World) newHistory(base sdk.Context) {
 	w.ctx, _ = base.CacheContext()
 	nA := 3 + w.pick(3)
 	nD := 2 + w.pick(3)
-	nM := 1 + w.pick(2)
+	nM := 1 + w.pick(3)
 	w.accts = nil
 	w.addrID = map[string]int64{}
 	w.extID = map[string]int64{}
@@ -1184,10 +1485,12 @@ func (w *c02World) newHistory(base sdk.Context) {
 		w.addrID[a.String()] = int64(i + 1)
 	}
 	w.addrID[w.admin.String()] = int64(nA + 1)
-	w.markets = []uint32{1, 2}[:nM]
-	if nM == 1 && w.pick(2) == 0 {
-		w.markets = []uint32{2}
+	w.markets = nil
+	for _, i := range w.r.Perm(3)[:nM] {
+		w.markets = append(w.markets, []uint32{1, 2, c02BipsMarket}[i])
 	}
+	sort.Slice(w.markets, func(i, j int) bool { return w.markets[i] < w.markets[j] })
+	w.vesting = map[string]bool{}
 	w.lastID = 0
 	w.payN = 0
 	// traded pairs
@@ -1196,7 +1499,6 @@ func (w *c02World) newHistory(base sdk.Context) {
 		w.pairs = append(w.pairs, [2]string{w.denoms[nD-1], w.denoms[(nD-1+1)%nD]})
 	}
 	for _, a := range w.accts {
-		ensureAccount(w.app, w.ctx, a)
 		var cs sdk.Coins
 		for _, d := range w.denoms {
 			amt := int64(50_000)
@@ -1210,6 +1512,31 @@ func (w *c02World) newHistory(base sdk.Context) {
 				cs = cs.Add(sdk.NewInt64Coin(d, amt))
 			}
 		}
+		if w.pick(4) == 0 && !cs.IsZero() && w.app.AccountKeeper.GetAccount(w.ctx, a) == nil {
+			// a vesting account as order owner: part of its balance is locked by the schedule, on top of
+			// which the holds are placed (the bank adds the two)
+			now := w.ctx.BlockTime().Unix()
+			var ov sdk.Coins
+			for _, c := range cs {
+				if w.pick(3) != 0 {
+					ov = ov.Add(sdk.NewCoin(c.Denom, c.Amount.MulRaw(int64(1+w.pick(9))).QuoRaw(10)))
+				}
+			}
+			ov = sdk.NewCoins(ov...)
+			if !ov.IsZero() {
+				bva, err := vesting.NewBaseVestingAccount(authtypes.NewBaseAccountWithAddress(a), ov, now+1000)
+				if err != nil {
+					w.t.Fatalf("vesting account: %v", err)
+				}
+				var va sdk.AccountI = vesting.NewDelayedVestingAccountRaw(bva)
+				if w.pick(2) == 0 {
+					va = vesting.NewContinuousVestingAccountRaw(bva, now-1000) // half way: about half is still locked
+				}
+				w.app.AccountKeeper.SetAccount(w.ctx, w.app.AccountKeeper.NewAccount(w.ctx, va))
+				w.vesting[a.String()] = true
+			}
+		}
+		ensureAccount(w.app, w.ctx, a)
 		if !cs.IsZero() {
 			fund(w.t, w.app, w.ctx, a, cs)
 		}
@@ -1308,9 +1635,11 @@ func (w *c02World) c02Genesis(base sdk.Context, cw *CaseWriter) {
 			fund(w.t, w.app, w.ctx, a, sdk.NewCoins(sdk.NewInt64Coin(d, 100_000)))
 		}
 	}
+	// only the orders, commitments and payments are imported: markets and params stay as they are
 	cctx, _ := w.ctx.CacheContext()
 	err := try(func() error {
 		w.app.HoldKeeper.InitGenesis(cctx, &hg)
+		gs.LastMarketId = 0
 		w.app.ExchangeKeeper.InitGenesis(cctx, &gs)
 		return nil
 	})
@@ -1339,88 +1668,130 @@ func (w *c02World) c02Genesis(base sdk.Context, cw *CaseWriter) {
 	if len(order) > 0 {
 		cw.Nontrivial(fmt.Sprintf("g/%d/%d/%d/%d/%v", mode, len(gs.Orders), len(gs.Commitments), len(gs.Payments), err == nil))
 	}
+	// carry on from the imported state: with exact holds the invariant is hold = obligations, with excess
+	// holds (accepted: the genesis check is a coverage check) it is "hold - obligations never changes"
+	if err == nil && len(order) > 0 && w.pick(2) == 0 {
+		w.ctx = cctx
+		w.markets = []uint32{2}
+		if w.pick(2) == 0 {
+			w.markets = []uint32{1, 2}
+		}
+		w.runHistory(cw, mode != 1, 4+w.pick(12), map[string]any{"after_genesis_mode": mode})
+		cw.Count("histories_after_genesis")
+		if mode == 1 {
+			cw.Count("histories_after_genesis_with_excess_holds")
+		}
+	}
 }
 
 // ---------- the test ----------
+
+// runHistory runs nOps generated operations from the current state of w.ctx and emits one CHist case.
+// exact = the starting state's holds EQUAL its obligations (otherwise: right after a genesis import whose
+// holds exceed them).
+func (w *c02World) runHistory(cw *CaseWriter, exact bool, nOps int, desc map[string]any) {
+	init := w.observe(w.ctx)
+	var steps, kinds, trace, sig []string
+	accepted := 0
+	closed := false
+	before := init
+	for i := 0; i < nOps; i++ {
+		op := w.nextOp(before, closed)
+		res := w.exec(op.msg)
+		if res.ok {
+			switch v := res.resp.(type) {
+			case *exchange.MsgCreateAskResponse:
+				w.lastID = v.OrderId
+			case *exchange.MsgCreateBidResponse:
+				w.lastID = v.OrderId
+			}
+			if op.kind == "close_market" {
+				closed = true
+			}
+		}
+		after := w.observe(w.ctx)
+		adm := res.ok
+		if op.adm != nil {
+			adm = op.adm(res.ok)
+			cw.Count("ops_two_sided")
+			if !res.ok && adm {
+				cw.Count("ops_refusal_left_to_model") // the model must predict this refusal (funds, amounts, owner ...)
+			}
+		}
+		opT := op.term(adm, res.ok, before, after)
+		steps = append(steps, fmt.Sprintf("(%s, %s, %s)", opT, coqBool(res.ok), w.stateT(after)))
+		trace = append(trace, fmt.Sprintf("%s => %v", opT, res.ok))
+		cw.Count("ops")
+		cw.Count("op_" + op.kind)
+		if res.ok {
+			accepted++
+			cw.Count("ops_accepted")
+			cw.Count("ok_" + op.kind)
+			kinds = append(kinds, op.kind)
+			if strings.HasPrefix(opT, "OSettle true") && strings.Contains(opT, "(Some (") {
+				cw.Count("partial_fills")
+			}
+			if o, isAsk := op.msg.(*exchange.MsgCreateAskRequest); isAsk && w.vesting[o.AskOrder.Seller] {
+				cw.Count("ok_order_by_vesting_account")
+			}
+			if o, isBid := op.msg.(*exchange.MsgCreateBidRequest); isBid && w.vesting[o.BidOrder.Buyer] {
+				cw.Count("ok_order_by_vesting_account")
+			}
+			if cs, isCS := op.msg.(*exchange.MsgMarketCommitmentSettleRequest); isCS && cs.MarketId == c02BipsMarket {
+				cw.Count("ok_commitment_settle_with_bips_and_navs")
+			}
+		} else {
+			cw.Count("ops_rejected")
+			if dbg := os.Getenv("C02_DEBUG"); dbg != "" && strings.HasPrefix(op.kind, dbg) {
+				e := res.err.Error()
+				if len(e) > 200 {
+					e = e[:200]
+				}
+				fmt.Printf("DBG %s adm=%v: %s\n", op.kind, adm, e)
+			}
+		}
+		if len(after.holds) > 0 {
+			cw.Count("steps_with_holds")
+		}
+		sig = append(sig, fmt.Sprintf("%s:%v", op.kind, res.ok))
+		before = after
+	}
+	var accts, denoms []string
+	for i := range w.universe() {
+		accts = append(accts, fmt.Sprintf("%d", i+1))
+	}
+	for i := range c02Denoms {
+		denoms = append(denoms, fmt.Sprintf("%d", i+1))
+	}
+	term := fmt.Sprintf("CHist %s %s %s %s %s", coqBool(exact), coqList(accts), coqList(denoms), w.stateT(init), "[\n    "+strings.Join(steps, ";\n    ")+"]")
+	d := map[string]any{"kind": "history", "exact_start": exact, "accounts": len(w.accts), "vesting_accounts": len(w.vesting), "denoms": len(w.denoms),
+		"markets": w.markets, "ops": nOps, "accepted": accepted, "accepted_kinds": kinds, "initial_state": w.stateT(init), "trace": trace}
+	for k, v := range desc {
+		d[k] = v
+	}
+	cw.Add(term, d)
+	cw.Count("histories")
+	if len(w.vesting) > 0 {
+		cw.Count("histories_with_vesting_account")
+	}
+	cw.Count(fmt.Sprintf("hist_len_%02d_%02d", (nOps/10)*10, (nOps/10)*10+9))
+	if accepted >= 3 {
+		cw.Nontrivial(strings.Join(sig, ","))
+	}
+}
 
 func TestC02(t *testing.T) {
 	r := newRand("C02")
 	cw := NewCaseWriter("C02", "PV.Corr.C02", "check_all", 12)
 	app, base := newApp(t)
+	base = base.WithBlockTime(time.Unix(1_700_000_000, 0).UTC()) // vesting schedules are relative to it
 	w := &c02World{t: t, app: app, r: r, admin: addrN(299)}
 	c02Setup(t, app, base, w.admin)
 
 	nHist := scale(160, 4000)
 	for h := 0; h < nHist; h++ {
 		w.newHistory(base)
-		nOps := 5 + w.pick(56)
-		init := w.observe(w.ctx)
-		var steps []string
-		var kinds []string
-		var trace []string
-		accepted := 0
-		closed := false
-		before := init
-		sig := []string{}
-		for i := 0; i < nOps; i++ {
-			op := w.nextOp(before, closed)
-			res := w.exec(op.msg)
-			if res.ok {
-				switch v := res.resp.(type) {
-				case *exchange.MsgCreateAskResponse:
-					w.lastID = v.OrderId
-				case *exchange.MsgCreateBidResponse:
-					w.lastID = v.OrderId
-				}
-				if op.kind == "close_market" {
-					closed = true
-				}
-			}
-			after := w.observe(w.ctx)
-			opT := op.term(res.ok, before, after)
-			steps = append(steps, fmt.Sprintf("(%s, %s)", opT, w.stateT(after)))
-			trace = append(trace, opT)
-			cw.Count("ops")
-			cw.Count("op_" + op.kind)
-			if res.ok {
-				accepted++
-				cw.Count("ops_accepted")
-				cw.Count("ok_" + op.kind)
-				kinds = append(kinds, op.kind)
-				if strings.HasPrefix(opT, "OSettle true") && strings.Contains(opT, "(Some (") {
-					cw.Count("partial_fills")
-				}
-			} else {
-				cw.Count("ops_rejected")
-				if dbg := os.Getenv("C02_DEBUG"); dbg != "" && strings.HasPrefix(op.kind, dbg) {
-					e := res.err.Error()
-					if len(e) > 160 {
-						e = e[:160]
-					}
-					fmt.Printf("DBG %s: %s\n", op.kind, e)
-				}
-			}
-			if len(after.holds) > 0 {
-				cw.Count("steps_with_holds")
-			}
-			sig = append(sig, fmt.Sprintf("%s:%v", op.kind, res.ok))
-			before = after
-		}
-		var accts, denoms []string
-		for i := range w.universe() {
-			accts = append(accts, fmt.Sprintf("%d", i+1))
-		}
-		for i := range c02Denoms {
-			denoms = append(denoms, fmt.Sprintf("%d", i+1))
-		}
-		term := fmt.Sprintf("CHist %s %s %s %s", coqList(accts), coqList(denoms), w.stateT(init), "[\n    "+strings.Join(steps, ";\n    ")+"]")
-		cw.Add(term, map[string]any{"kind": "history", "history": h, "accounts": len(w.accts), "denoms": len(w.denoms), "markets": len(w.markets),
-			"ops": nOps, "accepted": accepted, "accepted_kinds": kinds, "initial_state": w.stateT(init), "trace": trace})
-		cw.Count("histories")
-		cw.Count(fmt.Sprintf("hist_len_%02d_%02d", (nOps/10)*10, (nOps/10)*10+9))
-		if accepted >= 3 {
-			cw.Nontrivial(strings.Join(sig, ","))
-		}
+		w.runHistory(cw, true, 5+w.pick(56), map[string]any{"history": h})
 	}
 	for g := 0; g < scale(60, 1500); g++ {
 		w.c02Genesis(base, cw)
